@@ -147,7 +147,8 @@ theorem C13_steps_taken (p : Prog) (maxSteps : Nat) :
     collections `snaps` of the model stepped by hand `stepsTaken` times (`C13_steps_taken`; the positions are
     characterised by `C13_reported_collections`): one row per agent row recorded under that collection's step
     (`rowsOfSnap`: RunId, iteration, Step = the collection's step, the kwargs, the model reporters evaluated on the
-    collection's snapshot, AgentID and agent values), or a single row without agent part when nothing is recorded. -/
+    collection's snapshot, AgentID and agent values), or a single row without agent part when nothing is recorded.
+    (`rowsSpec`, which `C13_batch_run_exact` concatenates, is by definition this list.) -/
 theorem C13_run_rows_exact (cls : Kwargs κ → Prog) (maxSteps : Nat) (period : Int) (hp : period ≠ 0) (r : Run κ)
     (hT : Total (cls r.kwargs).cfg) :
     let p := cls r.kwargs
@@ -156,12 +157,11 @@ theorem C13_run_rows_exact (cls : Kwargs κ → Prog) (maxSteps : Nat) (period :
       runRows cls maxSteps period r = .ok (ps.flatMap fun i => match snaps[i]? with
         | some sn => rowsOfSnap p.cfg snaps r sn
         | none => []) ∧
-      (∀ i ∈ ps, ∃ sn, snaps[i]? = some sn ∧ rowsOfSnap p.cfg snaps r sn ≠ []) ∧
-      runRows cls maxSteps period r = .ok (rowsSpec cls maxSteps period r) := by
+      (∀ i ∈ ps, ∃ sn, snaps[i]? = some sn ∧ rowsOfSnap p.cfg snaps r sn ≠ []) := by
   intro p snaps
   obtain ⟨ps, hps, hmem, _⟩ := picks_spec snaps.length period hp
   have hr := runRows_eq_rowsSpec cls maxSteps period hp r hT
-  refine ⟨ps, hps, ?_, ?_, hr⟩
+  refine ⟨ps, hps, ?_, ?_⟩
   · rw [hr]; simp only [rowsSpec]
     show Except.ok (match picks snaps.length period with
       | .ok ps => ps.flatMap fun i => match snaps[i]? with
@@ -278,18 +278,18 @@ theorem C13_reported_collections (n : Nat) (period : Int) (hp : period ≠ 0) :
 /-- `batch_run` calls `_make_model_kwargs` once per iteration.  For re-iterable parameter values (everything C13
     quantifies over: scalars, strings, lists, tuples, ranges, dicts) every call yields the same configurations, so
     the work list is `runList kws iterations` — the one `C13_run_list` describes; an empty list / tuple / set is
-    rejected before any model is built (iterations ≥ 1), and `iterations = 0` runs nothing. -/
+    rejected before any model is built (iterations ≥ 1); `iterations = 0` runs nothing (`runList kws 0 = []`, by
+    definition of the loop: not a claim of this theorem). -/
 theorem C13_iterations_reiterable (cls : Kwargs κ → Prog) (params : List (Nat × PVal κ)) (n maxSteps : Nat)
     (period : Int) (hre : ∀ p ∈ params, ∀ vs, p.2 ≠ .once vs) :
     (∀ kws, makeKwargs params = .ok kws →
       batchRun cls params n maxSteps period = batchOrder cls maxSteps period (runList kws n)) ∧
-    (∀ e, makeKwargs params = .error e → batchRun cls params (n + 1) maxSteps period = .error e) ∧
-    batchRun cls params 0 maxSteps period = .ok [] := by
+    (∀ e, makeKwargs params = .error e → batchRun cls params (n + 1) maxSteps period = .error e) := by
   have hre' : ∀ p ∈ params, p.2.spent = p.2 := by
     intro p hp
     have := hre p hp
     cases h2 : p.2 <;> simp_all [PVal.spent]
-  refine ⟨?_, ?_, rfl⟩
+  refine ⟨?_, ?_⟩
   · intro kws hk
     simp only [batchRun, iterLoop_reiterable params kws hre' hk n 0, runList, Nat.zero_add]
   · intro e he
@@ -323,14 +323,13 @@ theorem C13_parallel_rows_by_run (cls : Kwargs κ → Prog) (maxSteps : Nat) (pe
   exact ⟨filter_flatMap_key Run.runId BRow.runId _ (runRowsT_runId cls maxSteps period) order hnd' r (h.mem_iff.mpr hr),
     filter_flatMap_key Run.runId BRow.runId _ (runRowsT_runId cls maxSteps period) runs hnd r hr⟩
 
-/-- Degenerate limits.  `max_steps = 0`: no step is taken, what is reported is what the constructor collected.
-    A `data_collection_period` at least as large as the number `n` of collections the run made: exactly the first
+/-- Degenerate limits (`max_steps = 0`: `runModel p 0` is `construct p` by definition — no step is taken, what is
+    reported is what the constructor collected; not a claim of this theorem).  A `data_collection_period` at least as large as the number `n` of collections the run made: exactly the first
     and the last collection are reported (once, if they are the same).  A run that never collected: no row. -/
-theorem C13_degenerate_limits (p : Prog) (n : Nat) (period : Int) :
-    runModel p 0 = construct p ∧
+theorem C13_degenerate_limits (n : Nat) (period : Int) :
     (0 < n → (n : Int) ≤ period → picks n period = .ok (if n = 1 then [0] else [0, n - 1])) ∧
     (period ≠ 0 → picks 0 period = .ok []) := by
-  refine ⟨rfl, ?_, ?_⟩
+  refine ⟨?_, ?_⟩
   · intro hn hle
     have hp0 : period ≠ 0 := by omega
     have hneg : ¬ period < 0 := by omega
